@@ -10,7 +10,7 @@
    PARTIAL beyond that: the same whole-command frame for the other key kinds and for .build/.kube/.volume units, the special handlers
    and the position clauses are decided by the direct oracle of tools/props/C02.py on implementation output together with
    whole-service correspondence with the converter model. *)
-From QV Require Import Model.Base Generated.Tables Model.Quote Model.Unquote Model.PortRange Model.Unit Model.Names Model.Convert Spec.Docs Proofs.C07 Proofs.C02 Proofs.C02run Proofs.C02types Proofs.Prio Proofs.C02shape.
+From QV Require Import Model.Base Generated.Tables Model.Quote Model.Unquote Model.PortRange Model.Unit Model.Names Model.Convert Spec.Docs Proofs.C07 Proofs.C02 Proofs.C02run Proofs.C02types Proofs.Prio Proofs.C02shape Model.Parser Model.Path Model.Process Model.ProcessD Proofs.C16trees.
 
 (* every (key, option) pair of the look-up tables found in the source today is the documented pair of the documented kind *)
 Theorem C02_tables :
@@ -265,3 +265,32 @@ Theorem C02_volume_command_shape : forall podman u path tbl svc sp t',
       before ++ [quote_words (global_words podman mods u c_VOLUME_SECTION ++ [s2l "volume"; s2l "create"; s2l "--ignore"] ++ mid
                               ++ lookup_all_args u c_VOLUME_SECTION (s2l "PodmanArgs") ++ [name])].
 Proof. exact volume_shape. Qed.
+
+(* ---- from the converters to the whole run with drop-ins: every service of the run is the result of ONE conversion of one input file's
+   main text merged with its drop-ins, under the type of its path, with some name table -- so every theorem above (stated for all
+   units and all tables) speaks about every service of the run ---- *)
+Theorem C02_run_services_are_conversions : forall podman exists_path kill_fixed mount_nl b (files : list (str * str * list str)) p svc sp,
+  In (p, ROk svc sp) (snd (process_trees podman exists_path kill_fixed mount_nl b files)) ->
+  exists text ds u0 t tbl t1, In (p, text, ds) files /\ parse_unit text = Some u0 /\ type_of_path p = Some t /\
+    convert_one podman exists_path kill_fixed mount_nl (fst (merge_dropins u0 ds)) p t tbl = COk (svc, sp, t1).
+Proof. exact trees_results_are_conversions. Qed.
+
+(* e.g. the command shape of every container service of the run *)
+Theorem C02_every_container_service_of_the_run : forall podman exists_path kill_fixed mount_nl b (files : list (str * str * list str)) p svc sp,
+  In (p, ROk svc sp) (snd (process_trees podman exists_path kill_fixed mount_nl b files)) -> type_of_path p = Some TContainer ->
+  exists text ds u0, In (p, text, ds) files /\ parse_unit text = Some u0 /\
+  let u := fst (merge_dropins u0 ds) in
+  exists before mods cname mid obj,
+    @lk_all berr u c_CONTAINER_SECTION (s2l "ContainersConfModule") = COk mods /\
+    (exists image, obj = [image] \/ obj = [s2l "--rootfs"; image]) /\
+    vals svc SEC_S (s2l "ExecStart") =
+      before ++ [quote_words (global_words podman mods u c_CONTAINER_SECTION
+                              ++ [s2l "run"; s2l "--name"; cname; s2l "--cidfile=%t/%N.cid"; s2l "--replace"; s2l "--rm"]
+                              ++ mid ++ lookup_all_args u c_CONTAINER_SECTION (s2l "PodmanArgs") ++ obj ++ exec_words u c_CONTAINER_SECTION)].
+Proof.
+  intros podman ep kf mn b files p svc sp Hr Ht.
+  destruct (trees_results_are_conversions _ _ _ _ _ _ _ _ _ Hr) as (text & ds & u0 & t & tbl & t1 & Hin & Hp & Ht' & Hc).
+  rewrite Ht in Ht'. injection Ht' as <-. cbn [convert_one] in Hc.
+  destruct (container_shape _ _ _ _ _ _ _ _ _ _ Hc) as (before & mods & cname & mid & obj & ports & A & _ & _ & _ & O & E).
+  exists text, ds, u0. split; [exact Hin|]. split; [exact Hp|]. cbv zeta. exists before, mods, cname, mid, obj. auto.
+Qed.
